@@ -315,8 +315,8 @@ pub fn property() -> Property {
         subs: vec![prop_sub(
             "writers",
             "1..3 StreamWriters (stdout, stderr, clones) with queues of writes (0,1,7,8,9,300,65535,65536,70000,... bytes) and flushes, polled in a generated order, plus the request's own poll_read flushing management replies through the same lock; transports splitting writes anywhere (inside the header, at the header/payload seam, inside padding) or Pending; the log must decode after every step, and at the end every accepted write is exactly one record of the right type/id with exactly its bytes, padding rule, per-writer order; non-trivial = >=2 writers and a writer was blocked on the lock while the log ended mid-record; distinct = hash of the case",
-            3_000,
-            100_000,
+            40_000,
+            1_000_000,
             |_| case_strategy(),
             test,
         )],
